@@ -17,6 +17,12 @@ package main
 // go2lean_string.go (strings as byte lists, error / interface{} as Options,
 // map literals, make + element assignment, Sprintf, comma-ok pairs; ON only
 // when Basic["string"] is set); taxidsrc.go is the configuration that uses it.
+// OPT-IN EXTENSIONS, each ON only for the configurations that set its flag, so
+// that a configuration is translated by exactly the translator it was written
+// and proved against: go2lean_effects.go (Effects; billcalcsrc.go),
+// go2lean_own.go (Own; taxtotalssrc.go) — these two treat functions without
+// result, writes in place and range loops differently and exclude each other —,
+// go2lean_codec.go (Codec; codecsrc.go), go2lean_refs.go (G2LEnableRefs; refssrc.go).
 //
 // HOW TO USE IT FOR ANOTHER PACKAGE (numsrc.go is the worked example,
 // testdata/g2l + go2lean_test.go the fixture for everything num does not need):
@@ -123,7 +129,12 @@ type G2LConfig struct {
 	// method key ("pkg.Recv.Method") → Lean template of the NEW VALUE of the receiver's pointee ({0} the pointee,
 	// {1} … the arguments): the statement `x.M(a)` becomes `x := template` (go2lean_effects.go)
 	EffPrims map[string]string
-	UnitVoid bool              // a function without result returns Unit × its in-out parameters (go2lean_own.go; without it: the in-out parameters alone, go2lean_effects.go)
+	// The two extensions below both deal with functions without result, writes in place and range loops, in
+	// different ways; each is OFF unless the configuration asks for it, and a configuration asks for at most one
+	// (G2LRun refuses both).  With neither, a function without result is untranslated.
+	Effects bool // go2lean_effects.go: context parameters, effect loops, a function without result returns its in-out parameters alone (billcalcsrc.go)
+	Own     bool // go2lean_own.go: owned locals, cursors, a function without result returns Unit × its in-out parameters (taxtotalssrc.go)
+
 	Codec    bool              // named results, `*p = v` on in-out parameters, []byte ↔ string, %0*d (go2lean_codec.go)
 	OutPrims map[string]string // call key → template of a primitive that writes through its last argument (go2lean_codec.go)
 }
@@ -435,7 +446,7 @@ func (g *g2l) zero(t types.Type) (string, error) {
 	if err != nil {
 		return "", err
 	}
-	if z, ok := g.zeroOpaque(t, lt); ok { // go2lean_own.go: opaque named types (`default`, pinned by opaqueZeros)
+	if z, ok := g.zeroOpaque(t, lt); ok { // go2lean_own.go (Own configurations): opaque named types (`default`, pinned by opaqueZeros)
 		return z, nil
 	}
 	switch g2lKindOf(t) {
@@ -638,6 +649,12 @@ func g2lOneLine(s string) string { return strings.Join(strings.Fields(s), " ") }
 // G2LRun translates what cfg asks for and returns the text of the Lean module.
 func G2LRun(cfg *G2LConfig) (string, error) {
 	g := &g2l{cfg: cfg, units: map[string]*g2lUnit{}}
+	if cfg.Effects && cfg.Own {
+		return "", fmt.Errorf("configuration %s: Effects and Own exclude each other", cfg.Namespace)
+	}
+	if !cfg.Effects && (len(cfg.Context) > 0 || len(cfg.EffPrims) > 0) {
+		return "", fmt.Errorf("configuration %s: Context / EffPrims need Effects", cfg.Namespace)
+	}
 	if err := g.load(); err != nil {
 		return "", err
 	}
